@@ -134,7 +134,7 @@ def run(ctx):
             if used and cfgname != "nolexer" and t[0] not in '"`':
                 want.add(t)
         if cfgname != "nolexer":
-            want |= {"zq9", "aq7"}
+            want |= {"zq9", "aq7", "zQ9"}
         if why is None and cfgname != "lexonly" and not want <= set(gen_terms):
             why = "terminals of the grammar missing from the GENERATED token map: %s" % sorted(want - set(gen_terms))
         if why is None and cfgname != "lexonly" and not want <= set(terms):
